@@ -430,27 +430,40 @@ pub fn run_acl(seed: u64, r: &mut Report, stats: &mut crate::RunStats) {
         r.count("role-transfer-rounds");
         matrix(&mut h.w, &roles, phase, &exes, &mut rng, r, &base);
     }
-    // the vAMM's engine / insurance-fund roles follow its configuration
-    let op = Op::Vamm {
-        sender: roles.vamm_owner.clone(),
-        vamm: 0,
-        msg: vm::ExecuteMsg::UpdateConfig {
-            base_asset_holding_cap: None,
-            open_interest_notional_cap: None,
-            toll_ratio: None,
-            spread_ratio: None,
-            fluctuation_limit_ratio: None,
-            margin_engine: Some("engine2".into()),
-            insurance_fund: Some("insurance2".into()),
-            pricefeed: None,
-            spot_price_twap_interval: None,
-        },
-    };
-    let st = h.step(op, r);
-    if st.out.ok {
-        exes.push(h.w.engine.to_string());
-        roles.vamm_engine = "engine2".into();
-        roles.vamm_insurance = "insurance2".into();
+    // the vAMM's engine / insurance-fund roles follow its configuration. Each role is handed over by an update that
+    // names ONLY that field (the other one follows in a second update, in either order), and the matrix runs after
+    // each: the expected holders are what the accepted updates named, not what the vAMM reports
+    let ins_first = rng.chance(1, 2);
+    for round in 0..2 {
+        let do_ins = (round == 0) == ins_first;
+        let op = Op::Vamm {
+            sender: roles.vamm_owner.clone(),
+            vamm: 0,
+            msg: vm::ExecuteMsg::UpdateConfig {
+                base_asset_holding_cap: None,
+                open_interest_notional_cap: None,
+                toll_ratio: None,
+                spread_ratio: None,
+                fluctuation_limit_ratio: None,
+                margin_engine: if do_ins { None } else { Some("engine2".into()) },
+                insurance_fund: if do_ins { Some("insurance2".into()) } else { None },
+                pricefeed: None,
+                spot_price_twap_interval: None,
+            },
+        };
+        let st = h.step(op.clone(), r);
+        if !st.out.ok {
+            r.violation("C09", "R2-role-transfer-refused", format!("R2|transfer|{}", op.kind()), format!("hand-over of the vAMM's {} role by its owner failed: {}", if do_ins { "insurance-fund" } else { "margin-engine" }, st.out.err_text()), st.seq);
+            break;
+        }
+        if do_ins {
+            exes.push(roles.vamm_insurance.clone());
+            roles.vamm_insurance = "insurance2".into();
+        } else {
+            exes.push(roles.vamm_engine.clone());
+            roles.vamm_engine = "engine2".into();
+        }
+        r.count("single-field-role-handovers");
         matrix(&mut h.w, &roles, "after-config", &exes, &mut rng, r, &base);
     }
     unwired_phase(&mut h, &roles, &exes, r, &base);
